@@ -1300,7 +1300,6 @@ Section Responder.
         cbn [reorged set_reorged]. intros x Hx. apply filter_In in Hx. apply Hx.
       + destruct (mem_uuid (trk_uuid k) (reorged t)); [apply IH; assumption|].
         destruct (t_conf k) eqn:Ec; [|apply IH; assumption].
-        unfold u32_sub. destruct (N.leb (t_height k) h); [|discriminate].
         intros Hl. destruct (IH _ _ _ _ Hsnap' RI Hl) as [RI' Hcomp]. split; [exact RI'|].
         intros u Hu. destruct (Hcomp u Hu) as [H1|H1]; [|right; exact H1].
         destruct (N.eqb (h - t_height k) (Z.to_N Consts.IRREVOCABLY_RESOLVED)) eqn:E100; [|left; exact H1].
@@ -2293,8 +2292,7 @@ Section ResponderAll.
       apply IH. eapply rl_frame; [| | |apply (rl_status t (trk_uuid k) h true R)]; try reflexivity.
       cbn [reorged set_reorged]. intros x Hx. apply filter_In in Hx. apply Hx.
     - destruct (mem_uuid (trk_uuid k) (reorged t)); [apply IH; exact R|].
-      destruct (t_conf k); [|apply IH; exact R].
-      destruct (u32_sub h (t_height k)); [apply IH; exact R|exact R].
+      destruct (t_conf k); apply IH; exact R.
   Qed.
 
   Lemma reorged_loop_all sc h us : forall t rej,
